@@ -30,6 +30,8 @@ type vfPool struct {
 	// KeepAfterResetError: a user that does not drop an instance whose Reset
 	// failed (the statement covers reuse "right after the same instance failed")
 	KeepAfterResetError bool
+	// WriteEvenWhenEmpty: a user that calls Write(nil) for an empty message (the default mimics bytes.Buffer.WriteTo: no call)
+	WriteEvenWhenEmpty bool
 }
 
 func (p *vfPool) compress(in []byte) ([]byte, error) {
@@ -38,7 +40,11 @@ func (p *vfPool) compress(in []byte) ([]byte, error) {
 	}
 	var buf bytes.Buffer
 	p.comp.Reset(&buf)
-	_, werr := p.comp.Write(in)
+	var werr error
+	if len(in) > 0 || p.WriteEvenWhenEmpty {
+		// connect-go hands the message over with bytes.Buffer.WriteTo, which makes no Write call at all for an empty message
+		_, werr = p.comp.Write(in)
+	}
 	// putCompressor: Close, Reset(io.Discard)
 	cerr := p.comp.Close()
 	if cerr != nil {
